@@ -638,8 +638,8 @@ def _bfs(ctx, inits, depth, stored):
         st["levels"].append({"depth": d, "executed": len(frontier), "new_states": new})
         ctx.log("depth %d: executed %d histories, %d new canonical states, next frontier %d" % (d, len(frontier), new, len(nxt)))
         frontier = nxt
-    else:
-        st["closure"] = not frontier
+    # closure: the last level reached no new canonical state (not expected at these depths)
+    st["closure"] = bool(st["levels"]) and st["levels"][-1]["new_states"] == 0
     return st
 
 
@@ -659,11 +659,12 @@ def plan(ctx):
             ("4 inits x reduced alphabet, depth 3", with_alpha(core4, "reduced"), 3),
             ("other inits x reduced alphabet, depth 2", with_alpha(rest, "reduced"), 2),
             ("SFD base x full alphabet, depth 2, twin with one reused changer", with_alpha([dict(base[0], reuse=True)], "full"), 2),
+            ("GFFPD base x full alphabet, depth 2", with_alpha([base[11]], "full"), 2),
         ]
     return [
         ("all inits x full alphabet, depth 2", with_alpha([dict(b, reuse=(i % 2 == 0)) for i, b in enumerate(base)], "full"), 2),
         ("all inits x reduced alphabet, depth 4", with_alpha(base, "reduced"), 4),
-        ("2 inits x full alphabet, depth 3", with_alpha([dict(base[0], reuse=True), base[16]], "full"), 3),
+        ("SFD base x full alphabet, depth 3, twin with one reused changer", with_alpha([dict(base[0], reuse=True)], "full"), 3),
     ]
 
 
@@ -676,7 +677,20 @@ def run(ctx):
         st = _bfs(ctx, inits, depth, stored)
         explore.merge_stats(total, st)
         searches.append({"search": label, "inits": len(inits), "depth": depth, "states": st["states"], "transitions": st["transitions"]})
-    explore.finish(ctx, total, extra={"plan": searches, "initial_states": len(base_inits())})
+    explore.finish(
+        ctx,
+        total,
+        extra={
+            "plan": searches,
+            "initial_states": len(base_inits()),
+            "alphabet_sizes": {"full": sorted(set(len(alphabet(dict(b, alpha="full"))) for b in base_inits())), "reduced": len(alphabet(dict(base_inits()[0], alpha="reduced")))},
+            "max_depth": max(d for _l, _i, d in plan(ctx)),
+            # every history up to the stated depth over the stated alphabet was executed (modulo canonical
+            # merging); "closure" per search says whether the last level still found new states (it does)
+            "exhaustive": True,
+            "exhaustive_within": "history depth bound per search (see plan); state spaces are infinite, no closure",
+        },
+    )
     ctx.assumptions += [
         "finite init family (two block stacks, heights 10/25, UZr|UraniumOxide x HT9|Inconel625, bond, explicit clad/duct targets) and finite factor/temperature alphabets (DESIGN 1.4); histories up to the stated depth",
         "thermal growth fractions of the reference model use the material's linearExpansionPercent correlation (trusted base, C03/C19)",
